@@ -6,7 +6,7 @@
 From Coq Require Import ZArith List String Bool Arith.
 Import ListNotations.
 From TD Require Import Model.Dual Model.C09_Align Model.C09_Shape Model.C09_Reduce Spec.C09_KeyWise Spec.C09_TorchReduce
-  Proofs.C09_AlignP Proofs.C09_CompareP Proofs.C09_ReduceP Proofs.C09_ShapeP.
+  Proofs.C09_AlignP Proofs.C09_CompareP Proofs.C09_ReduceP Proofs.C09_ShapeP Proofs.C09_CmpP.
 Local Open Scope string_scope.
 Local Open Scope list_scope.
 
@@ -84,6 +84,19 @@ Theorem C09_compare_diff_keys_raise : forall (V : Type) (c1 c2 : list (string * 
   cmp_tree (Node c1) (Node c2) = CRaised.
 Proof. exact @compare_diff_keys_raises. Qed.
 Print Assumptions C09_compare_diff_keys_raise.
+
+(* ------------------------------------------------------------------ comparisons dispatched through the right operand
+   (`td < tc` runs `tc > td`; a lazy stack hands `inverse_str` to a tensorclass operand): for all six operators the
+   operator applied to (other, self) is the CONVERSE relation, so the value is torch's `self <op> other` — and the
+   negation (`>=` for `<`) would be wrong on every tie *)
+Theorem C09_compare_dispatch : forall c a b,
+  cmp_sem (tc_dispatch c) b a = cmp_sem c a b /\ cmp_sem (lazy_dispatch c) b a = cmp_sem c a b.
+Proof. intros c a b. split; [apply tc_dispatch_sound|apply lazy_dispatch_sound]. Qed.
+Print Assumptions C09_compare_dispatch.
+Theorem C09_compare_dispatch_not_negation : forall c, c <> CEq -> c <> CNe ->
+  exists a b, cmp_sem (negation c) b a <> cmp_sem c a b.
+Proof. exact negation_dispatch_refuted. Qed.
+Print Assumptions C09_compare_dispatch_not_negation.
 
 (* ------------------------------------------------------------------ operator spellings (D40 repaired) *)
 Theorem C09_operator_order : forall d, order_ok fixed_rsub d = true.
